@@ -27,7 +27,7 @@ def collect(ck, args):
             meta = json.load(fh)
         props = meta.get("detected_by") or [meta["property"]]
         items.append({"name": "seeded/" + os.path.basename(d), "patch": patch, "props": props, "tier": meta.get("tier", "quick"),
-                      "expect": meta.get("expect", "detected")})
+                      "expect": meta.get("expect", "detected"), "superseded": meta.get("superseded_by_fix")})
     if args:
         items = [it for it in items if any(a in it["name"] for a in args)]
     return items
@@ -49,6 +49,10 @@ def main(ck, args):
             shutil.copy2(os.path.join(evdir, f), keep)
     for it in items:
         ap = git(ck, "apply", "--whitespace=nowarn", it["patch"])
+        if ap.returncode != 0 and it.get("superseded"):
+            results.append((it["name"], "SUPERSEDED", "the code it changes was rewritten by fix %s; detected on the tree before that fix" % it["superseded"]))
+            git(ck, "checkout", "--", ".")
+            continue
         if ap.returncode != 0:
             results.append((it["name"], "PATCH-DOES-NOT-APPLY", ap.stdout.strip()[:200]))
             git(ck, "checkout", "--", ".")
@@ -78,8 +82,9 @@ def main(ck, args):
     bad = 0
     for name, verdict, info in results:
         print("%-60s %-12s %s" % (name, verdict, info))
-        if verdict != "DETECTED":
+        if verdict not in ("DETECTED", "SUPERSEDED"):
             bad += 1
+    sup = len([1 for _, v, _ in results if v == "SUPERSEDED"])
     # leave evidence files describing the unchanged tree, not a mutant: callers re-run checks afterwards
-    print("%d/%d detected" % (len(results) - bad, len(results)))
+    print("%d/%d detected (%d superseded by a later fix, not run)" % (len(results) - bad - sup, len(results) - sup, sup))
     return 0 if bad == 0 else 1
